@@ -3,6 +3,7 @@ package c08
 import (
 	"encoding/json"
 	"errors"
+	"fmt"
 	"os"
 	"path/filepath"
 	"testing"
@@ -12,82 +13,115 @@ import (
 	"verifharness/internal/abs"
 )
 
-type fileCase struct {
-	M0   string `json:"m0"`
-	T0   string `json:"t0"`
-	At   string `json:"at"`
-	Main string `json:"main"`
+type fileCall struct {
+	K    int    `json:"k"`    // token set stored
+	At   string `json:"at"`   // stage at which the call is aborted ("" = completes)
+	Main int    `json:"main"` // what a reader must find afterwards: 0 no file, k the tokens of set k
 }
 
-// TestTokensFile replays every way spec/lifecycler/TokensFile.tla lets Tokens.StoreToFile end
-// (completed, or aborted at one of its stages through the failpoints of build tag verif) and
-// compares what LoadTokensFromFile finds afterwards with what the specification says.
+// token sets of increasing serialized length (Size = 1, 2, 2, 3 in TokensFile.tla): fewer tokens and
+// fewer digits make a shorter file.
+var fileSets = map[int]ring.Tokens{
+	1: {7},
+	2: {1000001, 2000002},
+	3: {3000003, 4000004},
+	4: {4294967290, 4294967291, 4294967295},
+}
+
+func fileSetsFor(k int) map[int]ring.Tokens {
+	if k == 3 { // sizes 1, 2, 3
+		return map[int]ring.Tokens{1: fileSets[1], 2: fileSets[2], 3: fileSets[4]}
+	}
+	return fileSets
+}
+
+// TestTokensFile replays every call sequence spec/lifecycler/TokensFile.tla emits (each
+// Tokens.StoreToFile completes or is aborted at one of its stages through the failpoints of build
+// tag verif) on real files, and after every call compares what LoadTokensFromFile finds with
+// what the specification says a reader must find.
 func TestTokensFile(t *testing.T) {
 	in := os.Getenv("VERIF_IN")
 	if in == "" {
 		t.Skip("VERIF_IN not set")
 	}
+	sets := fileSetsFor(abs.EnvInt("VERIF_K", 3))
 	res := &abs.Result{}
 	defer res.Write(t)
 	defer func() { ring.VerifFailpoint = nil }()
-	oldT := ring.Tokens{1, 5, 4294967295}
-	newT := ring.Tokens{0, 7, 4294967294, 4294967295}
-	seen := map[fileCase]bool{}
-	err := abs.ReadNDJSON(in, func(line []byte) error {
-		var c fileCase
-		if err := json.Unmarshal(line, &c); err != nil {
-			return err
-		}
-		if seen[c] {
+	seen := map[string]bool{}
+	root, err := os.MkdirTemp("", "verif-tf-")
+	if err != nil {
+		t.Fatal(err)
+	}
+	defer os.RemoveAll(root)
+	n := 0
+	err = abs.ReadNDJSON(in, func(line []byte) error {
+		if seen[string(line)] {
 			return nil
 		}
-		seen[c] = true
-		res.Cases++
-		dir, err := os.MkdirTemp("", "verif-tf-")
-		if err != nil {
+		seen[string(line)] = true
+		var calls []fileCall
+		if err := json.Unmarshal(line, &calls); err != nil {
 			return err
 		}
-		defer os.RemoveAll(dir)
+		res.Cases++
+		n++
+		dir := filepath.Join(root, fmt.Sprint(n))
+		if err := os.Mkdir(dir, 0o755); err != nil {
+			return err
+		}
 		path := filepath.Join(dir, "tokens.json")
-		ring.VerifFailpoint = nil
-		if c.M0 == "old" {
-			if err := oldT.StoreToFile(path); err != nil {
-				return err
-			}
-		}
-		if c.T0 == "full" { // a stale temporary file of an earlier aborted write
-			b, _ := ring.Tokens{9, 10}.Marshal()
-			if err := os.WriteFile(path+".tmp", b, 0o644); err != nil {
-				return err
-			}
-		}
-		if c.At != "" {
-			res.Nontrivial++
-			ring.VerifFailpoint = func(p string) error {
-				if p == "tokens.store."+c.At {
-					return errors.New("verif: abort at " + p)
+		aborted := 0
+		for ci, c := range calls {
+			ring.VerifFailpoint = nil
+			if c.At != "" {
+				aborted++
+				at := c.At
+				ring.VerifFailpoint = func(p string) error {
+					if p == "tokens.store."+at {
+						return errors.New("verif: abort at " + p)
+					}
+					return nil
 				}
-				return nil
+			}
+			serr := append(ring.Tokens{}, sets[c.K]...).StoreToFile(path)
+			ring.VerifFailpoint = nil
+			got := -1
+			lt, lerr := ring.LoadTokensFromFile(path)
+			switch {
+			case lerr != nil && os.IsNotExist(lerr):
+				got = 0
+			case lerr == nil:
+				for k, s := range sets {
+					if len(lt) == len(s) && lt.Equals(append(ring.Tokens{}, s...)) {
+						got = k
+					}
+				}
+			}
+			if got != c.Main || (serr == nil) != (c.At == "") {
+				found := "garbage"
+				if got == 0 {
+					found = "nothing"
+				} else if got > 0 {
+					found = "other-set"
+				}
+				prev := "first-call"
+				if ci > 0 {
+					prev = "after-abort=" + calls[ci-1].At
+				}
+				res.Mismatch(abs.Mismatch{Sig: fmt.Sprintf("tokensfile call abort=%q %s reader-finds=%s", c.At, prev, found), Case: calls,
+					Got:  map[string]any{"call": ci, "file": got, "store_error": serr != nil, "load_error": fmt.Sprint(lerr)},
+					Want: map[string]any{"file": c.Main, "store_error": c.At != ""}})
+				break
 			}
 		}
-		serr := newT.StoreToFile(path)
-		ring.VerifFailpoint = nil
-		got := "corrupt"
-		lt, lerr := ring.LoadTokensFromFile(path)
-		switch {
-		case lerr != nil && os.IsNotExist(lerr):
-			got = "none"
-		case lerr == nil && lt.Equals(append(ring.Tokens{}, oldT...)) && len(lt) == len(oldT):
-			got = "old"
-		case lerr == nil && lt.Equals(append(ring.Tokens{}, newT...)) && len(lt) == len(newT):
-			got = "new"
+		if aborted > 0 {
+			res.Nontrivial++
 		}
-		if got != c.Main || (serr == nil) != (c.At == "") {
-			res.Mismatch(abs.Mismatch{Sig: "tokensfile abort=" + c.At + " before=" + c.M0 + " found=" + got, Case: c,
-				Got:  map[string]any{"file": got, "store_error": serr != nil},
-				Want: map[string]any{"file": c.Main, "store_error": c.At != ""}})
+		if res.Cases%500 == 1 {
+			res.Sample(calls)
 		}
-		res.Sample(c)
+		_ = os.RemoveAll(dir)
 		return nil
 	})
 	if err != nil {
